@@ -26,10 +26,10 @@ PROFILES = {
     # everything: shared handles, workers, faults, cache loss, restarts, retyping, aliasing
     "C09": {
         "n_models": [1, 1, 2],
-        "want": [{}],
+        "want": [{}, {}, {"filter": True}],
         "workers": [1, 2, 2, 3, 3],
         "fault_free_p": 0.4,
-        "restart_p": 0.3,
+        "restart_p": 0.5,
         "batch_size": (3, 9),
         "n_sigs": (3, 6),
         "chaos_ops": (6, 12),
@@ -40,7 +40,7 @@ PROFILES = {
     },
     "C03": {
         "n_models": [1],
-        "want": [{}, {"stochastic": True}, {"stochastic": True, "two_stochastic": True}, {"cstate": True}],
+        "want": [{}, {"stochastic": True, "periods": (3, 5)}, {"stochastic": True, "two_stochastic": True, "periods": (2, 5)}, {"cstate": True}, {"filter": True}],
         "workers": [1, 1, 2],
         "fault_free_p": 0.8,
         "restart_p": 0.1,
@@ -48,6 +48,7 @@ PROFILES = {
         "n_sigs": (2, 4),
         "chaos_ops": (2, 5),
         "spy": ["scripted", "scripted", "spy", "off"],
+        "shock_sparsity": [0.0, 0.5, 0.8],
         "pool": (30, 60),
         "on_grid_bias": 0.3,
         "fresh_ref_p": 0.1,
@@ -76,7 +77,7 @@ PROFILES = {
     },
     "C06": {
         "n_models": [1],
-        "want": [{"cstate": True, "node": True}, {"cstate": False}, {"cstate": True}, {"filter": True}],
+        "want": [{"cstate": True, "node": True}, {"cstate": False}, {"cstate": True}, {"filter": True}, {"filter": True, "periods": (3, 4)}],
         "workers": [1, 2],
         "fault_free_p": 0.8,
         "restart_p": 0.5,
@@ -169,12 +170,13 @@ def make_run_plan(run_seed: int, profile: str, tier: str = "quick", overrides: d
         _, meta = catalogue.render(recipe)
         b.models[mid] = recipe
         b.metas[mid] = meta
+        sparsity = rng.choice(P.get("shock_sparsity", [0.0]))
         for j in range(rng.randint(2, 3)):
             if j == 1:
                 # a neighbour of p0: only one or two leaves differ (what an optimiser does between calls)
-                b.params[f"{mid}p{j}"] = {"model": mid, "values": catalogue.perturb_params(rng, recipe, meta, b.params[f"{mid}p0"]["values"])}
+                b.params[f"{mid}p{j}"] = {"model": mid, "values": catalogue.perturb_params(rng, recipe, meta, b.params[f"{mid}p0"]["values"], sparsity)}
             else:
-                b.params[f"{mid}p{j}"] = {"model": mid, "values": catalogue.gen_params(rng, recipe, meta)}
+                b.params[f"{mid}p{j}"] = {"model": mid, "values": catalogue.gen_params(rng, recipe, meta, sparsity)}
         pool = [catalogue.gen_agent(rng, recipe, P["on_grid_bias"]) for _ in range(rng.randint(*P["pool"]))]
         b.pools[mid] = pool
         nb = rng.randint(2, 3) if not P.get("membership") else rng.randint(4, 6)
@@ -420,7 +422,9 @@ def make_run_plan(run_seed: int, profile: str, tier: str = "quick", overrides: d
             s0, s1, w, hnd, mleaf, pattern = lp
             key = f"E{inc_index}_{tag}w{w}:{s0['mid']}"
             first = True
-            for which in pattern:
+            # an interrupted estimation loop: one of the later calls fails, the caller repeats it
+            hit = rng.randrange(1, len(pattern)) if (fault_kinds and rng.random() < 0.6) else None
+            for pos, which in enumerate(pattern):
                 s = (s0, s1)[which]
                 if not first:
                     ops.append({"id": b.oid(), "kind": "MUTATE", "worker": w, "obj": ["params", key], "to": s["pid"], "leaf": mleaf, "model_id": s["mid"]})
@@ -429,7 +433,9 @@ def make_run_plan(run_seed: int, profile: str, tier: str = "quick", overrides: d
                     return
                 op["pobj"] = key
                 op["leaf"] = mleaf
-                op["variant"] = False
+                if pos == hit:
+                    kinds = [k for k in fault_kinds if k != "log_stall"] or ["cancel"]
+                    op["_loop_fault"] = rng.choice(kinds)
                 ops.append(op)
                 first = False
 
@@ -467,10 +473,11 @@ def make_run_plan(run_seed: int, profile: str, tier: str = "quick", overrides: d
     def add_faults(ops):
         if not fault_kinds:
             return
-        targets = [o for o in ops if o["kind"] in ("BUILD", "SOLVE", "SIMULATE")]
+        targets = [o for o in ops if o["kind"] in ("BUILD", "SOLVE", "SIMULATE") and not o.get("_loop_fault")]
         rng.shuffle(targets)
-        for o in targets[: rng.randint(1, 3)]:
-            kind = rng.choice(fault_kinds)
+        chosen = [(o, rng.choice(fault_kinds), False) for o in targets[: rng.randint(1, 3)]]
+        chosen += [(o, o.pop("_loop_fault"), True) for o in ops if o.get("_loop_fault")]
+        for o, kind, always_retry in chosen:
             T = b.models[o["model_id"]]["n_periods"]
             if kind == "log_error":
                 f = {"kind": kind, "k": rng.randint(1, T + 1)}
@@ -482,8 +489,9 @@ def make_run_plan(run_seed: int, profile: str, tier: str = "quick", overrides: d
             else:
                 f = {"kind": kind, "n": rng.choice([rng.randint(1, 400), rng.randint(1, 2500), rng.randint(1, 6000)])}
             o.setdefault("faults", []).append(f)
-            if o["kind"] == "BUILD" and kind != "log_stall":
-                # the caller retries an interrupted build; dependants wait for the retry
+            if kind != "log_stall" and (o["kind"] == "BUILD" or always_retry or rng.random() < 0.6):
+                # the caller retries an interrupted build (dependants wait for the retry) and,
+                # usually, a failed call: same arguments, same function object, same worker
                 retry = dict(o)
                 retry.pop("faults")
                 retry["id"] = None
@@ -510,16 +518,16 @@ def make_run_plan(run_seed: int, profile: str, tier: str = "quick", overrides: d
             else:
                 mapping[old] = new
                 o["_old"] = old
+        final = {old: retry_of.get(old, new) for old, new in mapping.items()}
         for o in out:
-            o["needs"] = [retry_of.get(n, mapping.get(n, n)) for n in o.get("needs", [])]
+            o["needs"] = [final.get(n, n) for n in o.get("needs", [])]
             if o.get("vsrc"):
-                o["vsrc"] = [o["vsrc"][0], mapping.get(o["vsrc"][1], o["vsrc"][1])]
+                o["vsrc"] = [o["vsrc"][0], final.get(o["vsrc"][1], o["vsrc"][1])]
             if o["kind"] == "STORE":
-                o["src"] = mapping.get(o["src"], o["src"])
-                o["needs"] = [mapping.get(n, n) for n in o["needs"]]
+                o["src"] = final.get(o["src"], o["src"])
         for o in out:
             o.pop("_old", None)
-        return out, mapping
+        return out, final
 
     # ---------------------------------------------------------------- quiescent phase
     def gen_quiescent(handles, inc_index, chaos_solve, loads_for):
